@@ -15,6 +15,8 @@ import ParryModel.C12.Theorems7
 * `fromConvexMesh_face_vertices` — every entry of `vertices_adj_to_face` of the finished polyhedron is a corner of one of the INPUT
   triangles (the walk and the flood only rewrite `parent_face`, never a vertex triple): a face's vertex list never names a point
   that no triangle uses.
+* `fromConvexMesh_vertex_rows` — pass 5 (vertex → faces / edges compressed rows): `faces_adj_to_vertex` and `edges_adj_to_vertex`
+  have the same length and every vertex row `[first, first + num)` lies inside them (slicing them per vertex never panics).
 -/
 namespace C12
 open Model
@@ -60,5 +62,43 @@ theorem fromConvexMesh_face_vertices (pts : Array (V3 K)) (idxs : List (Nat × N
   have := htv c hcl
   rw [hc] at this
   exact ⟨c, t.v, j, by simpa using this.symm, rfl⟩
+
+/-- **the vertex rows lie inside the vertex adjacency arrays** -/
+theorem fromConvexMesh_vertex_rows (pts : Array (V3 K)) (idxs : List (Nat × Nat × Nat)) (p : Poly K)
+    (h : fromConvexMesh pts idxs = .ok p) :
+    p.facesAdjToVertex.size = p.edgesAdjToVertex.size ∧
+    ∀ (i : Nat) (v : PVertex), p.vertices[i]? = some v → v.first + v.num ≤ p.facesAdjToVertex.size := by
+  unfold fromConvexMesh at h
+  split at h
+  · cases h
+  · obtain ⟨s1, _, h⟩ := Res.bind_ok _ _ _ h
+    split at h
+    · cases h
+    · obtain ⟨s3, _, h⟩ := Res.bind_ok _ _ _ h
+      split at h
+      · cases h
+      · simp only at h
+        split at h
+        · cases h
+        · rename_i counted _
+          generalize hoff : offsets counted = off at h
+          obtain ⟨withOff, total⟩ := off
+          simp only at h
+          split at h
+          · cases h
+          · rename_i fin hfin
+            simp only [Res.ok.injEq] at h
+            subst h
+            rw [← Array.foldl_toList] at hfin
+            have inv := fillFold_inv s3.vaf s3.eaf s3.faces.toList _ (fun st hst => by
+              simp only [Option.some.injEq] at hst
+              subst hst
+              refine ⟨by simp, fun i v hv => ?_⟩
+              simp only [Array.getElem?_map, Option.map_eq_some_iff] at hv
+              obtain ⟨w, hw, rfl⟩ := hv
+              have := offsets_first_le counted i w (by rw [hoff]; exact hw)
+              rw [hoff] at this
+              simp only [Array.size_replicate]; omega) fin hfin
+            exact ⟨inv.sz, inv.rows⟩
 
 end C12
